@@ -130,6 +130,8 @@ def _run_format(job):
         obs = [("format tag", z3.BoolVal(data["__format__"] == {"minimal": "MazeDataset:minimal", "soln_cat": "MazeDataset:minimal_soln_cat", "full": "MazeDataset"}[fmt]))]
         loaded = MazeDataset.load(data)
         obs += _maze_obligations(loaded, terms, n, fmt)
+        # loading must not consume or modify the serialized data: the same serialized object loads again to the same dataset
+        obs += _maze_obligations(MazeDataset.load(data), terms, n, f"{fmt}, second load of the same serialized data")
         obs.append((f"{fmt}: configuration equal to the (metadata-collected) original", z3.BoolVal(_cfg_js(loaded.cfg) == _cfg_js(ds.cfg) and loaded.cfg == ds.cfg)))
         if fmt != "full":
             obs.append((f"{fmt}: collected generation metadata keeps its keys and counts", z3.BoolVal(_collected_ok(loaded.generation_metadata_collected, lengths, n))))
@@ -287,6 +289,14 @@ def _replay_format(job, inputs, notes):
     why = _same_mazes(ref, loaded)
     if why:
         return f"roundtrip-mazes:{job['fmt']} | lengths {job['lengths']} grid {job['n']}: {why}"
+    try:
+        ser = getattr(ds, FORMATS[job["fmt"]])()
+        MazeDataset.load(ser)
+        why = _same_mazes(ref, MazeDataset.load(ser))
+    except Exception as e:
+        why = f"{type(e).__name__}: {str(e)[:120]}"
+    if why:
+        return f"roundtrip-load-consumes-data:{job['fmt']} | lengths {job['lengths']} grid {job['n']}: loading the same serialized data a second time: {why}"
     if not (loaded.cfg == ds.cfg) or _cfg_js(loaded.cfg) != _cfg_js(ds.cfg):
         return f"roundtrip-cfg:{job['fmt']} | configuration differs after the round trip"
     if job["fmt"] != "full" and not _collected_ok(loaded.generation_metadata_collected, job["lengths"], job["n"]):
